@@ -178,12 +178,12 @@ def replay_estimates(m, task):
                     return "update_estimates modified its argument"
             elif op[0] == "get":
                 got = em.get_estimates().values * 64.0
-                if not np.array_equal(got, np.array(st["ret"], dtype=float)):
-                    return "get_estimates = %r, specification %r after %s" % (got.tolist(), list(st["ret"]), task["ops"])
+                if not np.array_equal(got, np.array(st["ret"]["get"], dtype=float)):
+                    return "get_estimates = %r, specification %r after %s" % (got.tolist(), list(st["ret"]["get"]), task["ops"])
             elif op[0] == "H":
                 r = np.array(op[1], dtype=float)
                 H = em.output_matrix(r)
-                exp = np.array([list(row) for row in st["ret"]], dtype=float).reshape(3, n)
+                exp = np.array([list(row) for row in st["ret"]["h"]], dtype=float).reshape(3, n)
                 if not np.array_equal(H, exp):
                     return "output_matrix(%r) differs from the specification after %s" % (list(op[1]), task["ops"])
         except Exception as e:
